@@ -46,7 +46,7 @@ _SKIP_TYPES = (logging.Logger, types.ModuleType, types.FunctionType,
 
 
 def cases(tier, seed):
-    n = 36 if tier == 'quick' else 360
+    n = 36 if tier == 'quick' else 1000
     return [{'name': 'core-%d' % i, 'seed': [seed, 61, i]}
             for i in range(n)]
 
